@@ -1,8 +1,12 @@
+(* History driver for the extracted Coq model: parses one operation per line, calls KeysMachine.step,
+   prints the observation and canonical dumps in the same line format as harness/src/bin/kdriver.rs.
+   No decision is taken here: every observation comes from the extracted [step]. *)
 open Model
 let rec pos_of_int (i:int) : positive = if i = 1 then XH else if i land 1 = 0 then XO (pos_of_int (i lsr 1)) else XI (pos_of_int (i lsr 1))
 let n_of_int i = if i = 0 then N0 else Npos (pos_of_int i)
 let rec int_of_pos = function XH -> 1 | XO p -> 2 * int_of_pos p | XI p -> 2 * int_of_pos p + 1
 let int_of_n = function N0 -> 0 | Npos p -> int_of_pos p
+let rec nat_of_int i = if i = 0 then O else S (nat_of_int (i - 1))
 let hexval c = match c with '0'..'9' -> Char.code c - 48 | 'a'..'f' -> Char.code c - 87 | _ -> failwith "hex"
 let bytes_of_hex s = let n = String.length s / 2 in List.init n (fun i -> hexval s.[2*i] * 16 + hexval s.[2*i+1])
 let rec decode = function
@@ -12,82 +16,82 @@ let rec decode = function
   | b :: b1 :: b2 :: t when b < 0xF0 -> (((b land 0x0F) lsl 12) lor ((b1 land 0x3F) lsl 6) lor (b2 land 0x3F)) :: decode t
   | b :: b1 :: b2 :: b3 :: t -> (((b land 0x07) lsl 18) lor ((b1 land 0x3F) lsl 12) lor ((b2 land 0x3F) lsl 6) lor (b3 land 0x3F)) :: decode t
   | _ -> failwith "utf8"
+let encode_cp c =
+  if c < 0x80 then [c] else if c < 0x800 then [0xC0 lor (c lsr 6); 0x80 lor (c land 0x3F)]
+  else if c < 0x10000 then [0xE0 lor (c lsr 12); 0x80 lor ((c lsr 6) land 0x3F); 0x80 lor (c land 0x3F)]
+  else [0xF0 lor (c lsr 18); 0x80 lor ((c lsr 12) land 0x3F); 0x80 lor ((c lsr 6) land 0x3F); 0x80 lor (c land 0x3F)]
+let hex_of_str (s : n list) = String.concat "" (List.map (fun b -> Printf.sprintf "%02x" b) (List.concat_map (fun c -> encode_cp (int_of_n c)) s))
 let str_of_tok t = List.map n_of_int (decode (bytes_of_hex (String.sub t 1 (String.length t - 1))))
 let hex_of_bytes (l : n list) = String.concat "" (List.map (fun b -> Printf.sprintf "%02x" (int_of_n b)) l)
 let rhex r = "r" ^ hex_of_bytes (right_bytes r)
 let b2i b = if b then 1 else 0
-let sec s = Printf.sprintf "%d/t%d" (b2i s.s_hyb) (int_of_n s.tok)
+let sec ns s = Printf.sprintf "%d/%s%d" (b2i s.s_hyb) ns (int_of_n s.tok)
+
+let dump_structure (st : structure) =
+  let dims = List.map (fun (name, dm) ->
+    let (ord, l) = match dm with Anarchy l -> (0, l) | Hierarchy l -> (1, l) in
+    let attrs = List.map (fun (an, a) -> Printf.sprintf "%s/%d/%d/%d" (hex_of_str an) (int_of_n a.a_id) (b2i a.a_hyb) (b2i a.a_enc)) l in
+    let attrs = if ord = 0 then List.sort compare attrs else attrs in
+    Printf.sprintf "%s:%d:%s" (hex_of_str name) ord (String.concat "," attrs)) st.dims in
+  Printf.sprintf "n=%d S=%s" (int_of_n st.next_id) (String.concat ";" (List.sort compare dims))
+
 let dump_msk m =
-  let items = List.sort compare (List.map (fun (r, ch) -> Printf.sprintf "%s=[%s]" (rhex r) (String.concat ";" (List.map (fun (f, s) -> Printf.sprintf "%d/%s" (b2i f) (sec s)) ch))) m.m_secrets) in
-  Printf.sprintf "MSK u=%d %s" (List.length m.m_users) (String.concat " " items)
+  let items = List.sort compare (List.map (fun (r, ch) -> Printf.sprintf "%s=%s" (rhex r) (String.concat ";" (List.map (fun (f, s) -> Printf.sprintf "%d/%s" (b2i f) (sec "t" s)) ch))) m.m_secrets) in
+  let users = List.map (fun i -> Printf.sprintf "i%d" (int_of_n i)) m.m_users in
+  Printf.sprintf "MSK l=1 t=2 sg=1 u=%s %s K=%s" (String.concat "," users) (dump_structure m.m_st) (String.concat " " items)
 let dump_mpk p =
-  "MPK " ^ String.concat " " (List.sort compare (List.map (fun (r, s) -> Printf.sprintf "%s=%s" (rhex r) (sec s)) p.p_keys))
+  Printf.sprintf "MPK l=1 t=2 %s K=%s" (dump_structure p.p_st)
+    (String.concat " " (List.sort compare (List.map (fun (r, s) -> Printf.sprintf "%s=%s" (rhex r) (sec "t" s)) p.p_keys)))
 let dump_usk u =
-  let id = match u.u_id with Some i -> Printf.sprintf "i%d" (int_of_n i) | None -> "none" in
-  Printf.sprintf "USK id=%s %s" id (String.concat " " (List.stable_sort (fun a b -> compare (fst a) (fst b)) (List.map (fun (r, ch) -> (rhex r, Printf.sprintf "%s=[%s]" (rhex r) (String.concat ";" (List.map sec ch)))) u.u_chains) |> List.map snd))
-let dump_enc x = Printf.sprintf "ENC %d %d" (b2i x.x_hyb) (List.length x.x_entries)
+  let (m, id) = match u.u_id with Some i -> (2, Printf.sprintf "i%d" (int_of_n i)) | None -> (0, "i-") in
+  Printf.sprintf "USK l=1 m=%d p=2 sg=1 id=%s K=%s" m id
+    (String.concat " " (List.sort compare (List.map (fun (r, ch) -> Printf.sprintf "%s=%s" (rhex r) (String.concat ";" (List.map (sec "t") ch))) u.u_chains)))
+let dump_enc x = Printf.sprintf "ENC l=1 t=2 h=%d n=%d" (b2i x.x_hyb) (List.length x.x_entries)
+
+let rec last = function [x] -> x | _ :: t -> last t | [] -> failwith "last"
+let nth l i = List.nth l i
+(* indices in scripts are taken modulo the number of existing objects (same rule in the Rust driver) *)
+let idx s len = let i = int_of_string s in if len = 0 then 10000 else i mod len
+
 let () =
-  let all = Array.length Sys.argv > 1 && Sys.argv.(1) = "fixed" in
-  let fx = { fx_ids = all; fx_rev = all; fx_prune = all; fx_rekey_flag = all; fx_refresh = all; fx_update = all; fx_recaps = all; fx_parse = all } in
-  let m = ref { m_users = []; m_secrets = []; m_st = empty_structure } in
-  let ctr = ref N0 in
-  let mpks = ref [||] and usks = ref [||] and encs = ref [||] in
-  let push a x = a := Array.append !a [|x|] in
-  let edit r = match r with Ok s -> m := { !m with m_st = s }; print_endline "OK" | _ -> print_endline "ERR" in
-  let newmpk () = let p = mk_mpk !m in push mpks p; print_endline ("OK " ^ dump_mpk p ^ " | " ^ dump_msk !m) in
+  let fx = if Array.length Sys.argv > 1 && Sys.argv.(1) = "pinned" then pinned else fixed in
+  let s = ref init in
+  let do_op o = let (s', ob) = step fx !s o in s := s'; ob in
+  let obs_str = function ObOk -> "OK" | ObErr -> "ERR" | ObNone -> "NONE" | ObSome _ -> "SOME" | ObNoIdx -> "NOIDX" | ObDead -> "DEAD" in
+  let p1 ob = Printf.printf "%s|%s\n" (obs_str ob) (dump_msk !s.st_msk) in
+  let p2 ob extra = match ob with
+    | ObOk -> Printf.printf "OK|%s|%s\n" (dump_msk !s.st_msk) (extra ())
+    | _ -> p1 ob in
   try while true do
     let line = input_line stdin in
     match String.split_on_char ' ' line with
-    | ["SETUP"] ->
-        m := { m_users = []; m_secrets = []; m_st = empty_structure }; ctr := N0; mpks := [||]; usks := [||]; encs := [||];
-        let ((_, m'), c) = update_msk fx !m !ctr in m := m'; ctr := c; newmpk ()
-    | ["AA"; d] -> edit (add_anarchy (str_of_tok d) !m.m_st)
-    | ["AH"; d] -> edit (add_hierarchy (str_of_tok d) !m.m_st)
-    | ["DD"; d] -> edit (del_dimension (str_of_tok d) !m.m_st)
-    | ["AT"; d; n; h; a] -> edit (add_attribute fx.fx_ids (str_of_tok d) (str_of_tok n) (h = "1") (if a = "-" then None else Some (str_of_tok a)) !m.m_st)
-    | ["DT"; d; n] -> edit (del_attribute (str_of_tok d) (str_of_tok n) !m.m_st)
-    | ["RN"; d; n; n'] -> edit (rename_attribute (str_of_tok d) (str_of_tok n) (str_of_tok n') !m.m_st)
-    | ["DS"; d; n] -> edit (disable_attribute (str_of_tok d) (str_of_tok n) !m.m_st)
-    | ["UPD"] ->
-        let ((r, m'), c) = update_msk fx !m !ctr in m := m'; ctr := c;
-        (match r with ROk _ -> newmpk () | RErr -> print_endline ("ERR " ^ dump_msk !m))
-    | ["MPK"] -> newmpk ()
-    | ["RK"; p] ->
-        (match usk_rights fx !m.m_st (str_of_tok p) with
-         | RErr -> print_endline ("ERR " ^ dump_msk !m)
-         | ROk rs -> let (r, c) = rekey fx !m rs !ctr in ctr := c;
-             (match r with ROk m' -> m := m'; newmpk () | RErr -> print_endline ("ERR " ^ dump_msk !m)))
-    | ["PR"; p] ->
-        (match usk_rights fx !m.m_st (str_of_tok p) with
-         | RErr -> print_endline ("ERR " ^ dump_msk !m)
-         | ROk rs -> m := prune !m rs; newmpk ())
-    | ["KG"; p] ->
-        (match usk_rights fx !m.m_st (str_of_tok p) with
-         | RErr -> print_endline ("ERR " ^ dump_msk !m)
-         | ROk rs -> let (r, c) = keygen !m rs !ctr in ctr := c;
-             (match r with ROk (m', u) -> m := m'; push usks u; print_endline ("OK " ^ dump_usk u ^ " | " ^ dump_msk !m) | RErr -> print_endline ("ERR " ^ dump_msk !m)))
+    | ["SETUP"] -> let ob = do_op OSetup in p2 ob (fun () -> dump_mpk (last !s.st_mpks))
+    | ["AA"; d] -> p1 (do_op (OAddAnarchy (str_of_tok d)))
+    | ["AH"; d] -> p1 (do_op (OAddHierarchy (str_of_tok d)))
+    | ["DD"; d] -> p1 (do_op (ODelDim (str_of_tok d)))
+    | ["AT"; d; n; h; a] -> p1 (do_op (OAddAttr (str_of_tok d, str_of_tok n, h = "1", (if a = "-" then None else Some (str_of_tok a)))))
+    | ["DT"; d; n] -> p1 (do_op (ODelAttr (str_of_tok d, str_of_tok n)))
+    | ["RN"; d; n; n'] -> p1 (do_op (ORename (str_of_tok d, str_of_tok n, str_of_tok n')))
+    | ["DS"; d; n] -> p1 (do_op (ODisable (str_of_tok d, str_of_tok n)))
+    | ["UPD"] -> let ob = do_op OUpdate in p2 ob (fun () -> dump_mpk (last !s.st_mpks))
+    | ["MPK"] -> let ob = do_op OMpk in p2 ob (fun () -> dump_mpk (last !s.st_mpks))
+    | ["RK"; p] -> let ob = do_op (ORekey (str_of_tok p)) in p2 ob (fun () -> dump_mpk (last !s.st_mpks))
+    | ["PR"; p] -> let ob = do_op (OPrune (str_of_tok p)) in p2 ob (fun () -> dump_mpk (last !s.st_mpks))
+    | ["KG"; p] -> let ob = do_op (OKeygen (str_of_tok p)) in p2 ob (fun () -> dump_usk (last !s.st_usks))
     | ["RF"; k; keep] ->
-        let k = int_of_string k in
-        if k >= Array.length !usks then print_endline "NOIDX" else begin
-          let (r, u') = refresh fx !m !usks.(k) (keep = "1") in
-          !usks.(k) <- u';
-          print_endline ((match r with ROk _ -> "OK " | RErr -> "ERR ") ^ dump_usk u' ^ " | " ^ dump_msk !m) end
-    | ["EN"; j; p] ->
-        let j = int_of_string j in
-        if j >= Array.length !mpks then print_endline "NOIDX" else
-        (match enc_rights fx !mpks.(j).p_st (str_of_tok p) with
-         | RErr -> print_endline "ERR"
-         | ROk rs -> let (r, c) = encaps_rights !mpks.(j) rs !ctr in ctr := c;
-             (match r with ROk x -> push encs x; print_endline ("OK " ^ dump_enc x) | RErr -> print_endline "ERR"))
-    | ["DE"; k; e] ->
-        let k = int_of_string k and e = int_of_string e in
-        if k >= Array.length !usks || e >= Array.length !encs then print_endline "NOIDX"
-        else if !usks.(k).u_chains = [] then print_endline "DEAD"
-        else (match decaps fx !usks.(k) !encs.(e) with Some _ -> print_endline "SOME" | None -> print_endline "NONE")
-    | ["RC"; j; e] ->
-        let j = int_of_string j and e = int_of_string e in
-        if j >= Array.length !mpks || e >= Array.length !encs then print_endline "NOIDX" else
-        let (r, c) = recaps fx !m !mpks.(j) !encs.(e) !ctr in ctr := c;
-        (match r with ROk x -> push encs x; print_endline ("OK " ^ dump_enc x) | RErr -> print_endline "ERR")
+        let k = idx k (List.length !s.st_usks) in
+        let ob = do_op (ORefresh (nat_of_int k, keep = "1")) in
+        (match ob with
+         | ObNoIdx -> p1 ob
+         | _ -> Printf.printf "%s|%s|%s\n" (obs_str ob) (dump_msk !s.st_msk) (dump_usk (nth !s.st_usks k)))
+    | ["EN"; j; p] -> let ob = do_op (OEncaps (nat_of_int (idx j (List.length !s.st_mpks)), str_of_tok p)) in p2 ob (fun () -> dump_enc (last !s.st_encs))
+    | ["DE"; k; e] -> p1 (do_op (ODecaps (nat_of_int (idx k (List.length !s.st_usks)), nat_of_int (idx e (List.length !s.st_encs)))))
+    | ["RC"; j; e] -> let ob = do_op (ORecaps (nat_of_int (idx j (List.length !s.st_mpks)), nat_of_int (idx e (List.length !s.st_encs)))) in p2 ob (fun () -> dump_enc (last !s.st_encs))
+    | ["RT"; "MSK"] -> p1 (do_op (ORoundTrip RefMsk))
+    | ["RT"; k; i] ->
+        let len = match k with "MPK" -> List.length !s.st_mpks | "USK" -> List.length !s.st_usks | _ -> List.length !s.st_encs in
+        let i = idx i len in
+        if i >= len then Printf.printf "NOIDX|%s\n" (dump_msk !s.st_msk)
+        else p1 (do_op (ORoundTrip (match k with "MPK" -> RefMpk (nat_of_int i) | "USK" -> RefUsk (nat_of_int i) | _ -> RefEnc (nat_of_int i))))
     | _ -> print_endline "??"
   done with End_of_file -> ()
